@@ -5,6 +5,8 @@ package runtime
 
 import (
 	"fmt"
+	"math"
+	"math/bits"
 	"strings"
 	"time"
 
@@ -176,6 +178,9 @@ func (m *runtimeContextManager) requireCPU(cpuAmount uint64) {
 		m.KillContext()
 	}
 	cpuUsed := m.usedResources.Cpu + cpuAmount
+	if cpuUsed < cpuAmount {
+		cpuUsed = math.MaxUint64 // overflow
+	}
 	if atLimit(cpuUsed, m.hardLimits.Cpu) {
 		m.TerminateContext("CPU limit of %d exceeded", m.hardLimits.Cpu)
 	}
@@ -204,6 +209,9 @@ func (m *runtimeContextManager) requireMem(memAmount uint64) {
 		m.KillContext()
 	}
 	memUsed := m.usedResources.Memory + memAmount
+	if memUsed < memAmount {
+		memUsed = math.MaxUint64 // overflow
+	}
 	if atLimit(memUsed, m.hardLimits.Memory) {
 		m.TerminateContext("memory limit of %d exceeded", m.hardLimits.Memory)
 	}
@@ -217,7 +225,10 @@ func (m *runtimeContextManager) RequireSize(sz uintptr) (mem uint64) {
 }
 
 func (m *runtimeContextManager) RequireArrSize(sz uintptr, n int) (mem uint64) {
-	mem = uint64(sz) * uint64(n)
+	hi, mem := bits.Mul64(uint64(sz), uint64(n))
+	if hi != 0 {
+		mem = math.MaxUint64 // overflow
+	}
 	m.RequireMem(mem)
 	return
 }
